@@ -406,6 +406,10 @@ static Instance* construct(unsigned i, bool logger, int fill) {
 	Logger* lg = logger ? &g_logger : nullptr;
 #if CTX_KIND == 2
 	return new (g_buf[i]) Instance{&g_ctx, lg};
+#elif CTX_KIND == 0
+	// context held by value: both constructor overloads (lvalue / rvalue context) must behave alike
+	if (fill & 1) return new (g_buf[i]) Instance{Ctx{g_ctx}, lg};
+	return new (g_buf[i]) Instance{g_ctx, lg};
 #else
 	return new (g_buf[i]) Instance{g_ctx, lg};
 #endif
@@ -413,6 +417,9 @@ static Instance* construct(unsigned i, bool logger, int fill) {
 	(void) logger;
 #if CTX_KIND == 2
 	return new (g_buf[i]) Instance{&g_ctx};
+#elif CTX_KIND == 0
+	if (fill & 1) return new (g_buf[i]) Instance{Ctx{g_ctx}};
+	return new (g_buf[i]) Instance{g_ctx};
 #else
 	return new (g_buf[i]) Instance{g_ctx};
 #endif
